@@ -436,6 +436,28 @@ class CacheKeysForClass(LibModel):
                 return [(st, ZV(o.data['is_type'], 'bool'))]
         return super().f_isinstance(eng, st, args, kwargs, node)
 
+    def new_type(self, eng, st, args, kwargs, node):
+        # type(x): the metaclass of a class - `type` itself or a subclass of it (abc.ABCMeta, ...); of a non-class: not type
+        if len(args) == 1 and not kwargs and isinstance(args[0], Obj) and args[0].kind in ('theclass', 'key'):
+            o = args[0]
+            exact = z3.Bool('metaclass_of_the_class_is_exactly_type' if o.kind == 'theclass' else f"metaclass_of_key{o.data['i']}_is_exactly_type")
+            if o.kind == 'key':
+                st = st.clone()
+                st.assume(z3.Implies(exact, o.data['is_type']))
+            return [(st, Obj('metaclass', {'exact': exact}))]
+        raise OutOfSubset("type(...)", node)
+
+    def compare(self, eng, st, op, a, b):
+        if isinstance(op, (ast.Is, ast.IsNot, ast.Eq, ast.NotEq)):
+            for x, y in ((a, b), (b, a)):
+                if isinstance(x, Obj) and x.kind == 'metaclass' and isinstance(y, C) and y.v == Ref('class', 'type'):
+                    t = x.data['exact']
+                    return ZV(z3.Not(t) if isinstance(op, (ast.IsNot, ast.NotEq)) else t, 'bool')
+        if isinstance(op, (ast.In, ast.NotIn)) and isinstance(a, Obj) and a.kind == 'theclass' and isinstance(b, Obj) and b.kind == 'registry':
+            t = z3.Bool('the_class_is_a_registered_key')
+            return ZV(z3.Not(t) if isinstance(op, ast.NotIn) else t, 'bool')
+        return super().compare(eng, st, op, a, b)
+
     def f_issubclass(self, eng, st, args, kwargs, node):
         o, c = args
         if isinstance(o, Obj) and o.kind == 'key' and isinstance(c, Obj) and c.kind == 'theclass':
